@@ -111,7 +111,7 @@ Definition parse_entry (args : list sx) : sx :=
                       SL (map (fun i => let '(v, n) := rpn_text i in SL [enc_str v; SZ n]) r);
                       enc_str (code e); enc_str (xflat (translate e));
                       enc_bool (modelled e); enc_bool (expr_eqb e (abs c));
-                      enc_bool (pywfb (emit false e))]
+                      enc_bool (pywfb (emit CtxTop e))]
               | None => SL [SZ 1]
               end
           | None => SL [SZ 1]
